@@ -127,7 +127,7 @@ def run_order(chk, F):
                '%s:%d' % (H, inits[0]['line']), len(sc) == 1, '%d sort calls' % len(sc),
                key='E7b|simplex_tree|%s|one-sort' % unit)
         if len(sc) == 1:
-            sorts[unit] = (ir.call_name(sc[0]), [ir.show(a) for a in ir.call_args(sc[0])], sc[0])
+            sorts[unit] = (ir.call_name(sc[0]), [cmprules.norm_range_arg(ir.show(a)) for a in ir.call_args(sc[0])], sc[0])
             cmprules.check_whole_range(chk, 'E7b-sort-arms', sc[0], '%s:%s' % (H, sc[0].get('l')),
                                        'E7b|simplex_tree|%s|whole-range' % unit, 'initialize_filtration (%s)' % unit)
         # the default overload hands the checked comparator down
